@@ -204,7 +204,9 @@ impl PatchHeader {
             let new = format!("{}\n{}", first_line, long_description);
             self.0.set("Description", new.as_str());
         } else {
-            self.0.set("Description", long_description);
+            // no short description yet: leave its line empty, the text starts on the next one
+            self.0
+                .set("Description", format!("\n{}", long_description).as_str());
         }
     }
 
